@@ -335,7 +335,7 @@ def run_b(c, res):
             warnings.simplefilter('ignore')
             out = run_pipeline(d, truth, mef_given, mef_channels, cl, cfg['statistic'], seed=stream)
     except Exception as e:
-        res.violation('B:raises:%s' % type(e).__name__, '%s raised %s: %s' % (what, type(e).__name__, e), one)
+        res.violation('B:raises:%s:sizes=%s' % (type(e).__name__, cfg.get('sizes', 'equal')), '%s raised %s: %s' % (what, type(e).__name__, e), one)
         return
     s = judge(res, 'B', what, d, truth, out, mef_given, mef_channels, cfg['statistic'], one, check_partition=True, cluster=cfg['cluster'], sizes=cfg.get('sizes', 'equal'))
     if s is None:
